@@ -1,5 +1,5 @@
 """C18 - Used-timezone discovery is complete; adding missing timezones closes it."""
-from datetime import date
+from datetime import date, datetime, timedelta
 
 from hypothesis import strategies as st
 
@@ -73,6 +73,20 @@ def judge(case):
         for pre in case["pre"]:
             if pre["kind"] == "generated":
                 cal.add_component(Timezone.from_tzid(pre["tzid"], first_date=WINDOW[0], last_date=WINDOW[1]))
+            elif pre["kind"] == "own-zone":
+                # a definition of the calendar's own zone whose observances carry properties with TZID parameters (nested components
+                # like any other)
+                from icalendar import TimezoneDaylight, TimezoneStandard
+                tz = Timezone()
+                tz.add("TZID", pre["tzid"])
+                for cls_, zone_ in ((TimezoneStandard, pre["zones"][0]), (TimezoneDaylight, pre["zones"][-1])):
+                    ob = cls_()
+                    ob.add("DTSTART", datetime(1970, 1, 1, 2, 0, 0))
+                    ob.add("TZOFFSETFROM", timedelta(hours=1))
+                    ob.add("TZOFFSETTO", timedelta(hours=1))
+                    ob.add("COMMENT", "as in", parameters={"TZID": zone_})
+                    tz.add_component(ob)
+                cal.add_component(tz)
             elif pre["kind"] == "stub":
                 tz = Timezone()
                 tz.add("TZID", pre["tzid"])
@@ -170,7 +184,9 @@ def info(case):
     classes = ["path:" + case["path"]]
     ids = spec_ids(case["tree"])
     for pre in case["pre"]:
-        if pre["kind"] == "none":
+        if pre["kind"] == "own-zone":
+            classes.append("pre:own-zone-with-tzid-parameters-in-observances")
+        elif pre["kind"] == "none":
             classes.append("pre:no-tzid")
         elif pre["tzid"] in ids:
             classes.append("pre:used")
@@ -230,6 +246,8 @@ def _comp(draw, depth):
         seen.add(p[0])
         out.append(p)
     subs = []
+    if depth > 0 and draw(st.integers(0, 4)) == 0:      # components the library has no class for (RFC 9073 and extensions)
+        subs.append({"c": draw(st.sampled_from(["X-VENUE", "PARTICIPANT", "VLOCATION", "x-lower"])), "p": draw(st.lists(_zprop("VEVENT"), max_size=2, unique_by=lambda p: p[0])), "s": []})
     if name in ("VEVENT", "VTODO") and depth > 0:
         for _ in range(draw(st.integers(0, 2))):
             a = {"c": "VALARM", "p": draw(st.lists(_zprop("VALARM"), max_size=2, unique_by=lambda p: p[0])), "s": []}
@@ -244,7 +262,7 @@ def cases(draw):
     tree = {"c": "VCALENDAR", "p": [["PRODID", {"k": "text", "v": "-//verif//c18"}]], "s": draw(st.lists(_comp(3), min_size=1, max_size=4))}
     pre = []
     ids = sorted(spec_ids(tree))
-    kinds = draw(st.lists(st.sampled_from(["used", "unused", "unknown-stub", "none"]), max_size=3, unique=True))
+    kinds = draw(st.lists(st.sampled_from(["used", "unused", "unknown-stub", "none", "own-zone"]), max_size=3, unique=True))
     path = draw(st.sampled_from(["api", "api", "parsed"]))
     for k in kinds:
         if k == "used":
@@ -259,6 +277,8 @@ def cases(draw):
             pre.append({"kind": "stub", "tzid": draw(st.sampled_from(UNKNOWN + ["Unused/Stub"]))})
         elif k == "none":
             pre.append({"kind": "none"})
+        elif k == "own-zone":
+            pre.append({"kind": "own-zone", "tzid": "Own/Zone", "zones": draw(st.lists(st.sampled_from(KNOWN + UNKNOWN[:1]), min_size=1, max_size=2))})
     edits = draw(st.lists(st.fixed_dictionaries({"node": st.integers(0, 5), "op": st.sampled_from(["set", "set", "exdate", "param", "drop"]),
                                                   "v": _wall, "tz": st.sampled_from(KNOWN + UNKNOWN[:1])}), max_size=3))
     edits = [dict(e, tz=e["tz"] if e["op"] == "param" or e["tz"] in KNOWN else KNOWN[0]) for e in edits]
